@@ -15,25 +15,30 @@ Ltac crack := repeat match goal with
 Ltac atomic_tac := cbn [out st' mutated nomut]; intros; try discriminate; auto.
 
 Definition atomic {St} (s : St) (r : sres St) : Prop := out r = Failed -> st' r = s /\ mutated r = false.
+Lemma with_tmp_atomic g len k al body : (forall t n1 al1, atomic (mkG (t :: hdr g) (els g)) (body (mkG (t :: hdr g) (els g)) t n1 al1)) -> atomic g (with_tmp g len k al body).
+Proof.
+  intros Hb. unfold atomic, with_tmp. destruct (vs_loop vs_fuel len 1024 al 0%nat k) as [[[ev r] n'] k']. destruct r as [t|]; cbn [out st' mutated nomut]; auto.
+  intros F. destruct (Hb t n' (shift al k') F) as [E M]. rewrite E, M. destruct g; auto.
+Qed.
 Lemma tree_step_atomic Sz g o k al : atomic g (tree_step Sz g o k al).
 Proof.
-  unfold atomic. destruct o; cbn [tree_step]; unfold script_tree_put_old, script_tree_put_new, script_getdata, script_tree_remove, script_remove_elem, script_getname, script_getpair, script_clear;
+  destruct o; cbn [tree_step]; try (apply with_tmp_atomic; intros t n1 al1); unfold atomic; unfold script_tree_put_old, script_tree_put_new, script_getdata, script_tree_remove, script_remove_elem, script_getname, script_getpair, script_clear;
     crack; atomic_tac.
 Qed.
 Lemma hash_step_atomic Sz g o k al : atomic g (hash_step Sz g o k al).
 Proof.
-  unfold atomic. destruct o; cbn [hash_step]; unfold script_hash_put, script_getdata, script_remove_elem, script_getpair, script_clear; crack; atomic_tac.
+  destruct o; cbn [hash_step]; try (apply with_tmp_atomic; intros t n1 al1); unfold atomic; unfold script_hash_put, script_getdata, script_remove_elem, script_getpair, script_clear; crack; atomic_tac.
 Qed.
 Lemma ltbl_step_atomic Sz g o k al : atomic g (ltbl_step Sz g o k al).
 Proof.
-  unfold atomic. destruct o; cbn [ltbl_step]; unfold script_ltbl_put, script_getdata, script_ltbl_getmulti, script_ltbl_remove, script_getpair, script_clear; crack; atomic_tac.
+  destruct o; cbn [ltbl_step]; try (apply with_tmp_atomic; intros t n1 al1); unfold atomic; unfold script_ltbl_put, script_getdata, script_ltbl_getmulti, script_ltbl_remove, script_getpair, script_clear; crack; atomic_tac.
 Qed.
 Lemma list_step_atomic Sz g o k al : atomic g (list_step Sz g o k al).
 Proof.
-  unfold atomic. destruct o; cbn [list_step]; unfold script_list_addat, script_getdata, script_list_popat, script_list_gettmp, script_remove_elem, script_list_toarray, script_clear; crack; atomic_tac.
+  destruct o; cbn [list_step]; try (apply with_tmp_atomic; intros t n1 al1); unfold atomic; unfold script_list_addat, script_getdata, script_list_popat, script_list_gettmp, script_remove_elem, script_list_toarray, script_clear; crack; atomic_tac.
 Qed.
 Lemma harr_step_atomic g o k al : atomic g (harr_step g o k al).
-Proof. unfold atomic. destruct o; cbn [harr_step]; crack; atomic_tac. Qed.
+Proof. destruct o; cbn [harr_step]; try (apply with_tmp_atomic; intros t n1 al1); unfold atomic; crack; atomic_tac. Qed.
 Lemma vec_step_atomic v o k al : atomic v (vec_step v o k al).
 Proof.
   unfold atomic. destruct o; cbn [vec_step]; unfold script_vec_addat, script_vec_getat, script_vec_popat, script_vec_removeat, script_vec_setat, script_vec_resize, script_vec_reverse, script_vec_toarray;
@@ -88,19 +93,35 @@ Proof.
     cbn [snd] in *. intros ->. rewrite <- IH; auto.
 Qed.
 Definition agrees {St} (r r0 : sres St) : Prop := out r = Done -> r = r0.
+Lemma vs_loop_ok fuel : forall len size al k n t, snd (fst (fst (vs_loop fuel len size al k n))) = Some t -> vs_loop fuel len size al k n = vs_loop fuel len size allok k n.
+Proof.
+  induction fuel as [|f IH]; intros len size al k n t; cbn [vs_loop]; [reflexivity|].
+  change (allok k) with true. cbv iota.
+  destruct (al k); [|cbn [fst snd]; discriminate].
+  destruct (len <? size); [reflexivity|].
+  specialize (IH len (size * 2) al (S k) (n + 1) t).
+  destruct (vs_loop f len (size * 2) al (S k) (n + 1)) as [[[ev r] n'] k']. cbn [fst snd] in *. intros E. rewrite <- (IH E). reflexivity.
+Qed.
+Lemma with_tmp_ok g len k al body : (forall g1 t n1 al1, agrees (body g1 t n1 al1) (body g1 t n1 allok)) -> agrees (with_tmp g len k al body) (with_tmp g len k allok body).
+Proof.
+  intros Hb. unfold agrees, with_tmp. assert (V := vs_loop_ok vs_fuel len 1024 al 0%nat k).
+  destruct (vs_loop vs_fuel len 1024 al 0%nat k) as [[[ev r] n'] k']. cbn [fst snd] in V.
+  destruct r as [t|]; cbn [out nomut]; [|discriminate].
+  intros D. rewrite <- (V t eq_refl). rewrite (Hb _ _ _ _ D). reflexivity.
+Qed.
 Lemma tree_step_ok Sz g o k al : agrees (tree_step Sz g o k al) (tree_step Sz g o k allok).
 Proof.
-  unfold agrees, allok. destruct o; cbn [tree_step]; unfold script_tree_put_old, script_tree_put_new, script_getdata, script_tree_remove, script_remove_elem, script_getname, script_getpair, script_clear;
+  destruct o; cbn [tree_step]; try (apply with_tmp_ok; clear g k al; intros g t k al); unfold agrees, allok; unfold script_tree_put_old, script_tree_put_new, script_getdata, script_tree_remove, script_remove_elem, script_getname, script_getpair, script_clear;
     crack_ok al; ok_tac.
 Qed.
 Lemma hash_step_ok Sz g o k al : agrees (hash_step Sz g o k al) (hash_step Sz g o k allok).
-Proof. unfold agrees, allok. destruct o; cbn [hash_step]; unfold script_hash_put, script_getdata, script_remove_elem, script_getpair, script_clear; crack_ok al; ok_tac. Qed.
+Proof. destruct o; cbn [hash_step]; try (apply with_tmp_ok; clear g k al; intros g t k al); unfold agrees, allok; unfold script_hash_put, script_getdata, script_remove_elem, script_getpair, script_clear; crack_ok al; ok_tac. Qed.
 Lemma list_step_ok Sz g o k al : agrees (list_step Sz g o k al) (list_step Sz g o k allok).
 Proof.
-  unfold agrees, allok. destruct o; cbn [list_step]; unfold script_list_addat, script_getdata, script_list_popat, script_list_gettmp, script_remove_elem, script_list_toarray, script_clear; crack_ok al; ok_tac.
+  destruct o; cbn [list_step]; try (apply with_tmp_ok; clear g k al; intros g t k al); unfold agrees, allok; unfold script_list_addat, script_getdata, script_list_popat, script_list_gettmp, script_remove_elem, script_list_toarray, script_clear; crack_ok al; ok_tac.
 Qed.
 Lemma harr_step_ok g o k al : agrees (harr_step g o k al) (harr_step g o k allok).
-Proof. unfold agrees, allok. destruct o; cbn [harr_step]; crack_ok al; ok_tac. Qed.
+Proof. destruct o; cbn [harr_step]; try (apply with_tmp_ok; clear g k al; intros g t k al); unfold agrees, allok; crack_ok al; ok_tac. Qed.
 Lemma vec_step_ok v o k al : agrees (vec_step v o k al) (vec_step v o k allok).
 Proof.
   unfold agrees, allok. destruct o; cbn [vec_step]; unfold script_vec_addat, script_vec_getat, script_vec_popat, script_vec_removeat, script_vec_setat, script_vec_resize, script_vec_reverse, script_vec_toarray;
@@ -108,7 +129,8 @@ Proof.
 Qed.
 Lemma ltbl_step_ok Sz g o k al : agrees (ltbl_step Sz g o k al) (ltbl_step Sz g o k allok).
 Proof.
-  unfold agrees. destruct o; cbn [ltbl_step].
+  destruct o; cbn [ltbl_step]; try (apply with_tmp_ok; clear g k al; intros g t k al); unfold agrees.
+  - unfold allok, script_ltbl_put. crack_ok al; ok_tac.
   - unfold allok, script_ltbl_put. crack_ok al; ok_tac.
   - unfold allok, script_getdata. crack_ok al; ok_tac.
   - unfold script_ltbl_getmulti.
@@ -278,4 +300,112 @@ Proof.
   cbn [vec_step]. unfold script_vec_addat. destruct (vmax v <=? vnum v); [destruct (al 0%nat)|destruct (vdata v) eqn:D]; cbn [out]; try discriminate; intros _; cbn [st' evs vset vdata];
     eexists; (split; [reflexivity|split]); try (apply in_or_app; right; try (apply in_or_app; right); simpl; auto; fail);
     unfold vblocks; cbn [vdata vmx vh olist]; apply in_or_app; right; simpl; auto.
+Qed.
+
+(* ------------------------------------------------------------------ C12 for the formatted put / add methods (putstrf, addstrf) *)
+(* the value kept by putstrf/addstrf is a fresh block of the call filled from the formatting buffer, which is itself a block of this
+   call and is released before the call returns; the key is a fresh copy of the caller's name as for put *)
+Definition fresh_from (s : src) (ev : list event) (b : blk) (sz : N) : Prop := In b (allocs ev) /\ (sz = 0 \/ In (Copy b s) ev).
+Definition elem_okx (dfrom : src) (g : gst) (ev : list event) (e : elem) : Prop :=
+  (forall b, ename e = Some b -> In b (flat_map eblocks (els g)) \/ fresh_from SCaller ev b (ensz e)) /\
+  (forall b, edata e = Some b -> In b (flat_map eblocks (els g)) \/ fresh_from dfrom ev b (esz e)).
+Definition privx (dfrom : src) (g : gst) (r : sres gst) : Prop := forall e, In e (els (st' r)) -> elem_okx dfrom g (evs r) e.
+Lemma old_elem_eblocks g e : In e (els g) -> (forall b, ename e = Some b -> In b (flat_map eblocks (els g))) /\ (forall b, edata e = Some b -> In b (flat_map eblocks (els g))).
+Proof.
+  intros I. split; intros b E; apply in_flat_map; exists e; (split; [auto|]); unfold eblocks; right; rewrite E; simpl; auto.
+  apply in_or_app. right. simpl. auto.
+Qed.
+Lemma elem_okx_old d g ev e : In e (els g) -> elem_okx d g ev e.
+Proof. intros I. destruct (old_elem_eblocks g e I) as [A B]. split; intros b E; left; auto. Qed.
+Ltac oldx := apply elem_okx_old; try match goal with S : els _ = _ |- _ => rewrite S end; auto with datatypes.
+Ltac frshx := right; unfold fresh_from, allocs; cbn [evs flat_map app In]; split; [auto 12 | try (left; (assumption || reflexivity)); right; auto 12].
+Ltac newelemx S := split; cbn [ename edata ensz esz]; intros b E;
+  match type of E with
+  | None = Some _ => discriminate
+  | Some _ = Some _ => inversion E; subst; frshx
+  | _ => left; match goal with e : elem, g : gst |- _ => let Ie := fresh "Ie" in assert (Ie : In e (els g)) by (rewrite S; auto with datatypes);
+           first [apply (proj1 (old_elem_eblocks _ e Ie)); assumption | apply (proj2 (old_elem_eblocks _ e Ie)); assumption] end
+  end.
+Lemma tree_put_old_privx g p e q ds d k al : els g = p ++ e :: q -> out (script_tree_put_old g p e q ds d k al) = Done -> privx d g (script_tree_put_old g p e q ds d k al).
+Proof.
+  intros S. unfold privx, script_tree_put_old. destruct (ds =? 0) eqn:Z; [|destruct (al 0%nat)]; cbn [out nomut]; try discriminate; intros _ x I; cbn [st' els] in I; inl;
+    first [ solve [oldx] | newelemx S ].
+Qed.
+Lemma tree_put_new_privx Sz g key ns ds d k al : out (script_tree_put_new Sz g key ns ds d k al) = Done -> privx d g (script_tree_put_new Sz g key ns ds d k al).
+Proof.
+  unfold privx, script_tree_put_new. destruct (al 0%nat), (al 1%nat), (al 2%nat), (ds =? 0) eqn:Z; cbn [andb orb negb out nomut]; try discriminate; intros _ x I; cbn [st' els] in I; inl;
+    first [ solve [oldx] | newelemx Z ].
+Qed.
+Lemma hash_put_privx Sz g key ns ds d k al : out (script_hash_put Sz g (split_key key (els g)) key ns ds d k al) = Done -> privx d g (script_hash_put Sz g (split_key key (els g)) key ns ds d k al).
+Proof.
+  unfold privx, script_hash_put, cp. destruct (split_key key (els g)) as [[[p e] q]|] eqn:S.
+  - apply split_key_eq in S as [S _]. destruct (al 0%nat), (al 1%nat), (ds =? 0) eqn:Z; cbn [andb out nomut]; try discriminate; intros _ x I; cbn [st' els] in I; inl;
+      try apply N.eqb_eq in Z; first [ solve [oldx] | newelemx S ].
+  - destruct (al 0%nat), (al 1%nat), (al 2%nat), (ds =? 0) eqn:Z; cbn [andb out nomut]; try discriminate; intros _ x I; cbn [st' els] in I; inl;
+      try apply N.eqb_eq in Z; first [ solve [oldx] | newelemx S ].
+Qed.
+Lemma ltbl_put_privx Sz g uniq top fwd key ns ds d k al : out (script_ltbl_put Sz g uniq top fwd key ns ds d k al) = Done -> privx d g (script_ltbl_put Sz g uniq top fwd key ns ds d k al).
+Proof.
+  unfold privx, script_ltbl_put, cp.
+  destruct (al 0%nat), (al 1%nat), (al 2%nat), (ds =? 0) eqn:Z; cbn [andb out nomut]; try discriminate; intros _ x I; cbn [st' els] in I;
+    destruct uniq, top; inl; try apply N.eqb_eq in Z; first [ solve [oldx] | idtac ];
+    (split; cbn [ename edata ensz esz]; intros b E; inversion E; subst; right; unfold fresh_from, allocs; cbn [evs flat_map app];
+     (split; [cbn [In]; auto 12 | try (left; (assumption || reflexivity)); right; cbn [In]; auto 12])).
+Qed.
+Lemma list_addat_privx Sz g pos ds d k al : out (script_list_addat Sz g pos ds d k al) = Done -> privx d g (script_list_addat Sz g pos ds d k al).
+Proof.
+  unfold privx, script_list_addat, cp.
+  destruct (al 0%nat), (al 1%nat), (ds =? 0) eqn:Z; cbn [out nomut]; try discriminate; intros _ x I; cbn [st' els] in I; inl;
+    try apply N.eqb_eq in Z; first [ solve [oldx] | newelemx Z ].
+Qed.
+
+Lemma vs_loop_alloc fuel : forall len size al k n t, snd (fst (fst (vs_loop fuel len size al k n))) = Some t -> In t (allocs (fst (fst (fst (vs_loop fuel len size al k n))))).
+Proof.
+  induction fuel as [|f IH]; intros len size al k n t; cbn [vs_loop]; [cbn; discriminate|].
+  destruct (al k); [|cbn [fst snd]; discriminate]. destruct (len <? size).
+  - cbn [fst snd]. intros E; inversion E; subst. cbn. auto.
+  - specialize (IH len (size * 2) al (S k) (n + 1) t). destruct (vs_loop f len (size * 2) al (S k) (n + 1)) as [[[ev r] n'] k']. cbn [fst snd] in *.
+    intros E. unfold allocs in *. cbn [flat_map app]. right. auto.
+Qed.
+Lemma allocs_app a b : allocs (a ++ b) = allocs a ++ allocs b.
+Proof. unfold allocs. apply flat_map_app. Qed.
+(* the statement for the formatted methods: key from the caller; value from a temporary t that this call allocated and released *)
+Definition via_tmp (ev : list event) (b : blk) : Prop :=
+  In b (allocs ev) /\ exists t, In t (allocs ev) /\ In (Copy b (SBlk t)) ev /\ In (Free t) ev.
+Definition private_f (g : gst) (r : sres gst) : Prop :=
+  forall e, In e (els (st' r)) ->
+    (forall b, ename e = Some b -> In b (flat_map eblocks (els g)) \/ fresh_from SCaller (evs r) b (ensz e)) /\
+    (forall b, edata e = Some b -> In b (flat_map eblocks (els g)) \/ esz e = 0 \/ via_tmp (evs r) b).
+Lemma with_tmp_private g len k al body :
+  (forall t n1 al1, out (body (mkG (t :: hdr g) (els g)) t n1 al1) = Done -> privx (SBlk t) (mkG (t :: hdr g) (els g)) (body (mkG (t :: hdr g) (els g)) t n1 al1)) ->
+  out (with_tmp g len k al body) = Done -> private_f g (with_tmp g len k al body).
+Proof.
+  intros Hb. unfold with_tmp. assert (V := vs_loop_alloc vs_fuel len 1024 al 0%nat k).
+  destruct (vs_loop vs_fuel len 1024 al 0%nat k) as [[[ev r] n'] k']. cbn [fst snd] in V.
+  destruct r as [t|]; cbn [out nomut]; [|discriminate]. intros D e I. cbn [st' els evs] in *.
+  destruct (Hb t n' (shift al k') D e I) as [A B]. cbn [els] in A, B. specialize (V t eq_refl).
+  split; intros b E.
+  - destruct (A b E) as [O|[F1 F2]]; [left; exact O|right]. split.
+    + rewrite !allocs_app. apply in_or_app. right. apply in_or_app. auto.
+    + destruct F2 as [Z|C]; [left; exact Z|right]. apply in_or_app. right. apply in_or_app. auto.
+  - destruct (B b E) as [O|[F1 F2]]; [left; exact O|right]. destruct F2 as [Z|C]; [left; exact Z|right]. split.
+    + rewrite !allocs_app. apply in_or_app. right. apply in_or_app. auto.
+    + exists t. split; [rewrite allocs_app; apply in_or_app; auto|]. split.
+      * apply in_or_app. right. apply in_or_app. auto.
+      * apply in_or_app. right. apply in_or_app. right. simpl. auto.
+Qed.
+Lemma tree_putf_private Sz g key ns len k al : out (tree_step Sz g (TPutf key ns len) k al) = Done -> private_f g (tree_step Sz g (TPutf key ns len) k al).
+Proof.
+  cbn [tree_step]. apply with_tmp_private. intros t n1 al1. cbn [els].
+  destruct (split_key key (els g)) as [[[p e] q]|] eqn:S.
+  - apply split_key_eq in S as [S _]. apply tree_put_old_privx. exact S.
+  - apply tree_put_new_privx.
+Qed.
+Lemma hash_putf_private Sz g key ns len k al : out (hash_step Sz g (HPutf key ns len) k al) = Done -> private_f g (hash_step Sz g (HPutf key ns len) k al).
+Proof. cbn [hash_step]. apply with_tmp_private. intros t n1 al1. apply (hash_put_privx Sz (mkG (t :: hdr g) (els g))). Qed.
+Lemma ltbl_putf_private Sz g uniq top fwd key ns len k al : out (ltbl_step Sz g (LPutf uniq top fwd key ns len) k al) = Done -> private_f g (ltbl_step Sz g (LPutf uniq top fwd key ns len) k al).
+Proof. cbn [ltbl_step]. apply with_tmp_private. intros t n1 al1. apply ltbl_put_privx. Qed.
+Lemma list_addf_private Sz g pos len k al : out (list_step Sz g (SAddf pos len) k al) = Done -> private_f g (list_step Sz g (SAddf pos len) k al).
+Proof.
+  cbn [list_step]. apply with_tmp_private. intros t n1 al1. destruct (len =? 0); [cbn [out nomut]; discriminate|]. apply list_addat_privx.
 Qed.
